@@ -225,7 +225,7 @@ def write_omen(d, m, enc='utf-8'):
             f.write('%d\n' % lvl)
     ks = m.get('keyspace')
     if ks is None:
-        ks = {L: len(omen_level_set(m, L)) for L in range(1, 11)}
+        ks = {L: len(omen_level_set(m, L)) for L in range(1, m.get('top_level', 10) + 1)}
         ks = {L: n for L, n in ks.items() if n}
     with open(os.path.join(d, 'omen_keyspace.txt'), 'w') as f:
         for L, n in sorted(ks.items()):
@@ -320,7 +320,7 @@ def ref_loaded(spec, skip_brute=False, skip_case=False, folder='Grammar'):
     if op is None:
         ks = om.get('keyspace')
         if ks is None:
-            ks = {L: len(omen_level_set(om, L)) for L in range(1, 11)}
+            ks = {L: len(omen_level_set(om, L)) for L in range(1, om.get('top_level', 10) + 1)}
             ks = {L: n for L, n in ks.items() if n}
         op = [(L, 0.5 ** (i + 2)) for i, L in enumerate(sorted(ks))]
     types['M'] = group_rows(op)
